@@ -28,3 +28,28 @@ func VerifState(k, iv []byte, n int) (s [16]uint32, r [2]uint32) {
 	}
 	return l.s, f.r
 }
+
+// VerifLfsrStep performs one LFSR update (initialisation mode adds u) on an arbitrary state.
+func VerifLfsrStep(s [16]uint32, init bool, u uint32) [16]uint32 {
+	l := &Lfsr{s: s}
+	if init {
+		l.state("InitialisationMode", u)
+	} else {
+		l.state("WorkMode", u)
+	}
+	return l.s
+}
+
+// VerifBR performs the bit reorganisation of an arbitrary LFSR state.
+func VerifBR(s [16]uint32) [4]uint32 {
+	br := &Br{}
+	br.bitReorganization(Lfsr{s: s})
+	return br.x
+}
+
+// VerifF performs the nonlinear function F on arbitrary inputs and returns W and the new registers.
+func VerifF(x [4]uint32, r [2]uint32) (uint32, [2]uint32) {
+	f := &Fsm{r: r}
+	w := f.nonlinF(Br{x: x})
+	return w, f.r
+}
